@@ -71,6 +71,7 @@ theorem endStep_acc_mono (cfg : Cfg) (mss : Nat) (e o : End) (a : Act) :
         · dsimp only; split <;> simp
     · simp
   | abort b => simp [endStep]
+  | probe => simp only [endStep]; split <;> simp
   | emitCtl sg => simp only [endStep]; split <;> simp
 
 theorem step_inv (cfg : Cfg) (mss : Nat) (p : Pair) (who : Bool) (a : Act) (h : PInv p)
@@ -346,6 +347,73 @@ theorem witness_F_C06_4 :
     exact absurd (h witness_staleWindow) (by decide)
   · intro h
     exact absurd (h witness_staleWindow_repaired) (by decide)
+
+/-- The F-C06-4 history on the committed tree before the persist probe (handshake, `recv_buf_cap = 1`, a
+    2-byte write; the zero-window ACK of the first byte is held back and delivered after the window
+    update it should have preceded; 8 silent rounds; the reader asks for the second byte). -/
+def staleWindow_committed9 : List Op :=
+    [.listen 1 0 ⟨.host 1 false, 9000⟩, .connect 0 0 0 ⟨.host 1 false, 9000⟩, .egress, .deliver 0, .egress,
+    .deliver 1, .cpoll 0 0, .egress, .deliver 2, .accept 0 1, .write 0 [1, 2], .egress, .deliver 3,
+    .egress, .read 1 1, .egress, .deliver 5, .deliver 4, .egress, .egress, .egress, .egress, .egress,
+    .egress, .egress, .egress, .read 1 1]
+
+/-- The same application calls and the same reordering on the committed tree: the third silent egress
+    emits the persist probe (packet 6), its delivery draws the current window (packet 7). -/
+def fixed_staleWindow : List Op :=
+    [.listen 1 0 ⟨.host 1 false, 9000⟩, .connect 0 0 0 ⟨.host 1 false, 9000⟩, .egress, .deliver 0, .egress,
+    .deliver 1, .cpoll 0 0, .egress, .deliver 2, .accept 0 1, .write 0 [1, 2], .egress, .deliver 3,
+    .egress, .read 1 1, .egress, .deliver 5, .deliver 4, .egress, .egress, .egress, .deliver 6, .egress,
+    .deliver 7, .egress, .egress, .egress, .egress, .read 1 1]
+
+set_option maxRecDepth 100000 in
+/-- F-C06-4 on the tree with all nine earlier repairs (`Cfg.committed9`): still refuted — a stale
+    `window = 0` is the sender's last word and nothing probes it. -/
+theorem witness_F_C06_4_committed9 : ¬ C06_Live_Statement { Cfg.committed9 with recvCap := 1 } := by
+  intro h
+  exact absurd (h staleWindow_committed9) (by decide)
+
+set_option maxRecDepth 100000 in
+/-- With the repair (`fixPersistProbe`: every `retx_threshold` egress passes a sender with unsent
+    data, nothing in flight and a zero window sends its first unsent byte at `snd_nxt` without
+    advancing `snd_nxt`; `snd_max` covers it) the same scenario completes on the committed tree: the
+    probe is accepted (the window was open), its ACK is valid thanks to SND.MAX, and the reader gets
+    the second byte. Within budget, quiescent. -/
+theorem fixed_F_C06_4 :
+    let cfg : Cfg := { Cfg.committed with recvCap := 1 }
+    Spec.c06Liveness cfg (Spec.modelHistory cfg 2 fixed_staleWindow) = none ∧
+    ((Sys.init cfg 2).run fixed_staleWindow).2.getLast? = some [Obs.okBytes [2]] ∧
+    Spec.withinBudget cfg (Spec.modelHistory cfg 2 fixed_staleWindow) = true ∧
+    Spec.trailingQuiet (Spec.modelHistory cfg 2 fixed_staleWindow) ≥ 4 := by
+  refine ⟨by decide, by decide, by decide, by decide⟩
+
+/-- The persist probe at TCB level, for every state: it is sent only with something to send, nothing
+    in flight and a zero window; it leaves `snd_nxt`, the buffers and the retransmit counters alone
+    (so the socket does not become a retransmit candidate and `retx_max` is never charged: a slow
+    reader is never aborted); and the ACK of the probed byte is then valid (SND.MAX). -/
+theorem persist_probe_facts (t : Tcb) (h : t.persistCandidate = true) :
+    t.sndWnd = 0 ∧ t.sndUna = t.sndNxt ∧
+    t.probed.sndNxt = t.sndNxt ∧ t.probed.sndUna = t.sndUna ∧ t.probed.sendBuf = t.sendBuf ∧
+    t.probed.retxAttempts = t.retxAttempts ∧ t.probed.egressSinceAck = t.egressSinceAck ∧
+    (t.probed.retxCandidate = true → t.isHandshake = true) ∧
+    (t.sndUna < M32 → t.sndMax = t.sndUna → t.probed.ackValid true (wadd t.sndUna 1) = true) := by
+  unfold Tcb.persistCandidate at h
+  simp only [Bool.and_eq_true, beq_iff_eq, Bool.or_eq_true, Bool.not_eq_true'] at h
+  obtain ⟨⟨⟨_, hw⟩, hidle⟩, _⟩ := h
+  refine ⟨hw, hidle, rfl, rfl, rfl, rfl, rfl, ?_, ?_⟩
+  · intro hc
+    unfold Tcb.retxCandidate Tcb.probed at hc
+    simp only [Bool.or_eq_true, Bool.and_eq_true, bne_iff_ne, ne_eq] at hc
+    rcases hc with hc | ⟨_, hne⟩
+    · exact hc
+    · exact absurd hidle hne
+  · intro hlt hmx
+    unfold Tcb.ackValid Tcb.ackBound Tcb.probed
+    simp only [if_true]
+    have e0 : wadd t.sndUna 0 = t.sndUna := wadd_zero _ hlt
+    have e1 : wsub (wadd t.sndUna 1) t.sndUna = 1 := by
+      rw [wsub_wadd t.sndUna t.sndUna 1 hlt hlt (by rw [wsub_self]; unfold M32; omega), wsub_self]
+    rw [e1, if_pos (by simpa using hmx), ← hidle, e1]
+    simp
 
 def witness_lostLastAck : List Op :=
     [.listen 1 0 srv, .connect 0 0 0 srv, .egress, .deliver 0, .egress, .deliver 1, .cpoll 0 0,
